@@ -22,7 +22,18 @@ def parseAxis? : String → Option Axis
   | "other" => some .other
   | _ => none
 
+def showAxis : Option Axis → String
+  | some .time => "time" | some .freq => "freq" | some .other => "other" | none => "none"
+
+/-- `axis ndim radio(0|1) n:<name>|i:<int>` → `time|freq|other|none`; otherwise the concat request -/
 def handle : List String → String
+  | ["axis", nd, radio, arg] =>
+    match parseNat? nd, arg.splitOn ":" with
+    | some nd, ["n", nm] => showAxis (axisOf nd (radio == "1") (.name nm))
+    | some nd, ["i", v] => match parseInt? v with
+      | some a => showAxis (axisOf nd (radio == "1") (.idx a))
+      | none => "bad-arg"
+    | _, _ => "bad-arg"
   | ax :: al :: ps =>
     match parseAxis? ax, parseRat? al, ps.mapM parsePiece? with
     | some ax, some al, some ps =>
